@@ -402,6 +402,9 @@ def gen_lines(ctx):
     # lives in the destination's own root: descendant, ancestor, sibling, the destination itself
     for ops in V.alias_cases():
         add(ops)
+    # object merges into a destination that is exactly full and holds removed members, every merge form
+    for ops in V.full_merge_cases():
+        add(ops)
     return lines, opss, n_corpus, n_exh
 
 
